@@ -660,7 +660,7 @@ func c12Layouts(thorough bool) []*c12Layout {
 	var out []*c12Layout
 	shapes := [][]int{{1}, {2}, {1, 1}, {2, 1}, {1, 2}, {2, 2}}
 	if thorough {
-		shapes = append(shapes, []int{1, 1, 1}, []int{2, 1, 2}, []int{1, 2, 1}, []int{2, 2, 2})
+		shapes = append(shapes, []int{1, 1, 1}, []int{2, 1, 2}, []int{1, 2, 1}, []int{2, 2, 2}, []int{3, 1}, []int{1, 3}, []int{3, 3})
 	} else {
 		shapes = append(shapes, []int{1, 2, 1})
 	}
@@ -708,7 +708,7 @@ func runC12(c *vf.Ctx) {
 		c.SetBudget(3 * 60 * 1e9)
 	}
 	c.Rule = "files are generated from an intended partition (ground truth by construction) with a raw writer: shapes of 1-3 segments x 1-2 fragments, 1-2 tracks, delimiter mechanism {styp, one top-level sidx, two sequential top-level sidx, mfra/tfra, none}, for the top-level indexes with and without a free box between index and first segment (first_offset != 0), emsg {none, first fragment of each segment, every fragment}, 0/1/2 sidx inside each styp segment, first decode time/composition offset {0/0, 7/0, 7/2}, 0 or 4 unused bytes at the start of each mdat, reference-track runs in 5 forms (explicit durations / tfhd default / trex default, one or two truns per traf); decoded with all four flag combinations (ISM, start-on-moof) by both decoders; partition, order, byte-identical segment-mode re-encode, then UpdateSidx(add, nonZeroEPT in {false,true}) + Encode through the API and through the add-sidx example (overlay driver), with the written index checked against the actual box positions by an independent walker. A case = (layout, flags, decoder)."
-	c.Bound = "<= 3 segments x <= 2 fragments x <= 2 tracks; 1-2 samples per fragment"
+	c.Bound = "<= 3 segments x <= 2 (thorough: 3) fragments x <= 2 tracks; 1-2 samples per fragment"
 	layouts := c12Layouts(thorough)
 	c.Set("layouts", len(layouts))
 	nw := 16
